@@ -19,6 +19,7 @@ RULE = (
     "the builder's faces for every encoding; supplied tables returned as given; derived tables satisfy "
     "their definition relative to the tables they are derived from.  Non-trivial: encodings differing "
     "from the plain one in >= 2 factors."
+    ' Also: fill value 0 with one-based indexes, mesh M10 with unused nodes, dataset purity and a second topology object on the same dataset and on a copy; thorough: one 49284-node mesh with derived tables only.'
 )
 LEVEL_TEXT = ("every encoding in the stated product for every mesh of the library (~400 encodings per mesh): normalised "
               "face-node table and polygons equal the builder's faces; supplied tables as given; derived tables by "
